@@ -104,6 +104,10 @@ class C16(Prop):
                 good = copy.deepcopy(solve)
                 good["out"] = "tau_good"
                 ops.append(good)
+                if rng.random() < 0.7:
+                    # the user reads everything after the successful solve (whatever is memoised is memoised now)
+                    for o, kd in accessor_ops(b, rng, with_generated=False):
+                        ops.append(dict(o))
                 solve["peer"]["script"] = {"1": rng.choice([{"action": "status", "status": rng.choice(NOVALUE_STATUSES)},
                                                             {"action": "raise"}])}
                 ops.append(solve)
